@@ -21,6 +21,9 @@ def jt808_side(ctx, mode):
             ctx.violation("canary-not-served handlers=%s after=%s" % (mode, e["after"]),
                           "the established session's heartbeat / command round trip, or a new connection, failed after hostile client '%s'" % e["after"],
                           {"kind": "live-c10", "mode": mode, "after": e["after"]})
+        if e["ev"] == "leak" and (e["fds"] > 30 or e["goroutines"] > 60):
+            ctx.violation("resources-of-ended-connections-not-released handlers=%s" % mode,
+                          "after %s: %d more descriptors and %d more goroutines than before" % (e["after"], e["fds"], e["goroutines"]), {"kind": "live-c10", "mode": mode, "event": e})
         if e["ev"] == "cmd_stranded":
             ctx.violation("caller-stranded handlers=%s" % mode, "a SendActiveMessage to the non-reading terminal did not return", {"kind": "live-c10", "mode": mode})
     if rc == 0 and not any(e["ev"] == "canary" and e["after"] == "end" for e in events):
@@ -46,6 +49,15 @@ def check(ctx):
     # then continued; duplicates; impossible package numbers (logical clock; validated step by step by Trace_Extract)
     from checks import extract_common as xc
     xc.trace_extract(ctx, 300 if thorough else 40)
+    hx = os.path.join(ctx.scratch, "extract_hostile.ndjson")
+    ctx.vh_ok(["extract-hostile", hx], timeout=300)
+    hev = vlib.read_nd(hx, quoted=False)
+    for e in hev:
+        if e["panic"] or not e["alive"]:
+            ctx.violation("extractor-panic total=%d" % e["total"] if e["panic"] else "extractor-dead-after-oversized-transfer total=%d" % e["total"],
+                          "a transfer announcing %d packages, left idle and continued (variant %d): %s" % (e["total"], e["variant"], e["panic"] or "no frame extracted afterwards"),
+                          {"kind": "extract-hostile", "event": e})
+    ctx.note_impl("oversized-transfers-left-idle-through-the-extractor", len(hev))
     ctx.sample({"from": "hostile-catalogue", "names": [e["name"] for e in ev if e["ev"] == "hostile"][:20]})
     # attachment server: hostile sessions through the real connection loop (in-memory conn, exact close points), judged by Trace_Attach
     ac.trace_attach(ctx, 900 if thorough else 150, hostile=True, sig_prefix="attachment ")
